@@ -9,6 +9,7 @@ use crate::{
 };
 
 use image::RgbaImage;
+use std::collections::{BTreeMap, HashSet};
 use std::fmt;
 use std::io::Read;
 use std::sync::Arc;
@@ -82,10 +83,12 @@ impl<'a> Cel<'a> {
     }
 }
 
-/// Organizes all Cels into a 2d array.
+/// Organizes all Cels by frame and layer.
 pub(crate) struct CelsData<P> {
-    // Mapping: frame_id -> layer_id -> Option<RawCel>
-    data: Vec<Vec<Option<RawCel<P>>>>,
+    // Mapping: frame_id -> layer_id -> RawCel. Only stores the cels that
+    // exist, so memory use does not depend on the number of layers (or on the
+    // layer index that a cel claims to have).
+    data: Vec<BTreeMap<u16, RawCel<P>>>,
     num_frames: u32,
 }
 #[derive(Debug, Clone, Copy)]
@@ -107,16 +110,14 @@ where
     fn fmt(&self, f: &mut fmt::Formatter<'_>) -> fmt::Result {
         let mut d = f.debug_map();
         for frame in 0..self.data.len() {
-            for (layer, cel) in self.data[frame].iter().enumerate() {
-                if let Some(ref cel) = cel {
-                    d.entry(
-                        &CelId {
-                            frame: frame as u16,
-                            layer: layer as u16,
-                        },
-                        cel,
-                    );
-                }
+            for (layer, cel) in self.data[frame].iter() {
+                d.entry(
+                    &CelId {
+                        frame: frame as u16,
+                        layer: *layer,
+                    },
+                    cel,
+                );
             }
         }
         d.finish()
@@ -126,8 +127,7 @@ where
 impl<P> CelsData<P> {
     pub(crate) fn new(num_frames: u32) -> Self {
         let mut data = Vec::with_capacity(num_frames as usize);
-        // Initialize with one layer (outer Vec) and zero RawCel (inner Vec).
-        data.resize_with(num_frames as usize, || vec![None]);
+        data.resize_with(num_frames as usize, BTreeMap::new);
         CelsData { data, num_frames }
     }
 
@@ -145,50 +145,34 @@ impl<P> CelsData<P> {
         self.check_valid_frame_id(frame_id)?;
 
         let layer_id = cel.data.layer_index;
-        let min_layers = layer_id as u32 + 1;
         let layers = &mut self.data[frame_id as usize];
-        if layers.len() < min_layers as usize {
-            layers.resize_with(min_layers as usize, || None);
-        }
-        if layers[layer_id as usize].is_some() {
+        if layers.contains_key(&layer_id) {
             return Err(AsepriteParseError::InvalidInput(format!(
                 "Multiple Cels for frame {}, layer {}",
                 frame_id, layer_id
             )));
         }
-        layers[layer_id as usize] = Some(cel);
+        layers.insert(layer_id, cel);
 
         Ok(())
     }
 
+    // Cels of the given frame in order of increasing layer ID.
     pub(crate) fn frame_cels(&self, frame_id: u16) -> impl Iterator<Item = (u32, &RawCel<P>)> {
         self.data[frame_id as usize]
             .iter()
-            .enumerate()
-            .filter_map(|(layer_id, cel)| cel.as_ref().map(|c| (layer_id as u32, c)))
+            .map(|(layer_id, cel)| (*layer_id as u32, cel))
     }
 
-    // Frame ID must be valid. If Layer ID is out of bounds always returns an
-    // empty Vec.
+    // Frame ID must be valid. If there is no cel for the Layer ID returns
+    // `None`.
     pub(crate) fn cel(&self, cel_id: CelId) -> Option<&RawCel<P>> {
         let CelId { frame, layer } = cel_id;
-        let layers = &self.data[frame as usize];
-        if (layer as usize) >= layers.len() {
-            None
-        } else {
-            layers[layer as usize].as_ref()
-        }
+        self.data[frame as usize].get(&layer)
     }
 
     pub(crate) fn cel_mut(&mut self, cel_id: &CelId) -> Option<&mut RawCel<P>> {
-        let frame = cel_id.frame;
-        let layer = cel_id.layer;
-        let layers = &mut self.data[frame as usize];
-        if (layer as usize) >= layers.len() {
-            None
-        } else {
-            layers[layer as usize].as_mut()
-        }
+        self.data[cel_id.frame as usize].get_mut(&cel_id.layer)
     }
 }
 
@@ -256,25 +240,21 @@ impl CelsData<RawPixels> {
             data: Vec::with_capacity(self.data.len()),
             num_frames,
         };
-        // Mapping from CelId -> bool. True if the cel can be used as a target
-        // for a linked cel. That means it must exist, and it must hold actual
-        // content (an image or a tilemap), i.e., not be a linked cel itself.
+        // The set of cels that can be used as a target for a linked cel. That
+        // means the cel must exist, and it must hold actual content (an image
+        // or a tilemap), i.e., not be a linked cel itself.
         // We copy it out here, so we can consume the actual data in the
         // validation/transformation step.
-        let mut is_linkable_cel: Vec<bool> = Vec::with_capacity(num_frames as usize * num_layers);
-        for frame in 0..num_frames {
-            for layer in 0..num_layers {
-                let cel_id = CelId {
-                    frame: frame as u16,
-                    layer: layer as u16,
-                };
-                is_linkable_cel.push(self.cel(cel_id).map_or(false, |c| !c.content.is_linked()));
+        let mut linkable_cels: HashSet<(u16, u16)> = HashSet::new();
+        for (frame, cels_by_layer) in self.data.iter().enumerate() {
+            for (layer, cel) in cels_by_layer.iter() {
+                if !cel.content.is_linked() {
+                    linkable_cels.insert((frame as u16, *layer));
+                }
             }
         }
         let validate_ref = |id: CelId| {
-            let index = id.frame as usize * num_layers + id.layer as usize;
-            let in_range = (id.frame as u32) < num_frames && (id.layer as usize) < num_layers;
-            if in_range && is_linkable_cel[index] {
+            if linkable_cels.contains(&(id.frame, id.layer)) {
                 Ok(())
             } else {
                 Err(AsepriteParseError::InvalidInput(format!(
@@ -286,31 +266,27 @@ impl CelsData<RawPixels> {
 
         // Validate and transform each cel. Consumes input arrays.
         for (frame, cels_by_layer) in self.data.into_iter().enumerate() {
-            result.data.push(Vec::with_capacity(cels_by_layer.len()));
-            for (layer, opt_cel) in cels_by_layer.into_iter().enumerate() {
-                let cel = if let Some(cel) = opt_cel {
-                    let cel_id = CelId {
-                        frame: frame as u16,
-                        layer: layer as u16,
-                    };
-                    if layer >= num_layers {
-                        return Err(AsepriteParseError::InvalidInput(format!(
-                            "Cel {} references a layer that does not exist (number of layers: {})",
-                            cel_id, num_layers
-                        )));
-                    }
-                    Some(cel.validate(
-                        cel_id,
-                        layers,
-                        tilesets,
-                        pixel_format,
-                        palette.clone(),
-                        &validate_ref,
-                    )?)
-                } else {
-                    None
+            result.data.push(BTreeMap::new());
+            for (layer, cel) in cels_by_layer.into_iter() {
+                let cel_id = CelId {
+                    frame: frame as u16,
+                    layer,
                 };
-                result.data[frame].push(cel);
+                if layer as usize >= num_layers {
+                    return Err(AsepriteParseError::InvalidInput(format!(
+                        "Cel {} references a layer that does not exist (number of layers: {})",
+                        cel_id, num_layers
+                    )));
+                }
+                let cel = cel.validate(
+                    cel_id,
+                    layers,
+                    tilesets,
+                    pixel_format,
+                    palette.clone(),
+                    &validate_ref,
+                )?;
+                result.data[frame].insert(layer, cel);
             }
         }
 
